@@ -100,7 +100,8 @@ func parseHist(toks []token) []*node {
 
 type compiler struct {
 	st      *account.AccountDB
-	next    int // next contract id
+	noSpin  bool // never end a frame in an endless loop (receipt layer: a failing CREATE frame gets 63/64 of a large gas limit)
+	next    int  // next contract id
 	logSeq  *int
 	faultNo *int
 }
@@ -232,6 +233,9 @@ func (c *compiler) body(n *node, isCreate bool) []byte {
 		}
 	default: // fault: rotate through the faults of the instruction set
 		*c.faultNo++
+		if c.noSpin && *c.faultNo%5 == 3 {
+			*c.faultNo++
+		}
 		switch *c.faultNo % 5 {
 		case 0:
 			a.Op(eu.INVALID)
@@ -537,8 +541,13 @@ func main() {
 	script := flag.String("script", "", "TLC call histories (json list of token lists)")
 	nrand := flag.Int("random", 0, "seeded random scenarios")
 	salt := flag.Int64("salt", 0, "seed salt")
+	receipts := flag.String("receipts", "", "receipt layer: TLC call histories executed as transactions through the block executor")
 	custom := flag.Bool("custom", false, "run the custom-opcode-in-static-context scenarios")
 	flag.Parse()
+	if *receipts != "" {
+		runReceipts(*receipts, *out, *scratch)
+		return
+	}
 	eu.Boot(*scratch)
 	tr := vutil.NewTrace(*out)
 	stats := map[string]int{}
